@@ -68,6 +68,18 @@ func parseJet(src string) ([]jNode, error) {
 	i := 0
 	for i < len(src) {
 		j := strings.Index(src[i:], "{{")
+		// {* ... *} is a template comment: it renders as nothing (Jet does not trim around it)
+		if cm := strings.Index(src[i:], "{*"); cm >= 0 && (j < 0 || cm < j) {
+			if cm > 0 {
+				pieces = append(pieces, piece{text: src[i : i+cm], off: i})
+			}
+			e := strings.Index(src[i+cm:], "*}")
+			if e < 0 {
+				return nil, fmt.Errorf("unterminated {* at offset %d", i+cm)
+			}
+			i = i + cm + e + 2
+			continue
+		}
 		if j < 0 {
 			pieces = append(pieces, piece{text: src[i:], off: i})
 			break
